@@ -57,7 +57,7 @@ func isLogCall(e ast.Expr) bool {
 		return false
 	}
 	// schedule points of the verification hooks are no-ops in the default build
-	if id, ok := c.Fun.(*ast.Ident); ok && id.Name == "verifPoint" {
+	if id, ok := c.Fun.(*ast.Ident); ok && (id.Name == "verifPoint" || id.Name == "verifPointTr") {
 		return true
 	}
 	s, ok := c.Fun.(*ast.SelectorExpr)
